@@ -421,8 +421,12 @@ def check_plan(case, plan):
             break
     # predecessor / successor queries agree with the graph
     for g, t in by_gid.items():
-        preds = {p.graph_id for p in plan.get_task_predecessors(t)}
-        succs = {s.graph_id for s in plan.get_task_successors(t)}
+        try:
+            preds = {p.graph_id for p in plan.get_task_predecessors(t)}
+            succs = {s.graph_id for s in plan.get_task_successors(t)}
+        except Exception as e:       # a query that fails on a task of the plan is itself a disagreement with the graph
+            out.append(O.V('C14', 'query_raised', f"node {g}: predecessor/successor query raised {type(e).__name__}: {e}"))
+            continue
         want_p = {u for (u, v) in edges if v == g}
         want_s = {v for (u, v) in edges if u == g}
         if preds != want_p:
@@ -726,7 +730,9 @@ class C16:
     prop = 'C16'
     cases = {'quick': 4000, 'thorough': 8000}
     technique = "metamorphic property-based testing of Config.parse_* (same physical configuration, different unit) + exhaustive unit sweep"
-    rule = ("a physical configuration in seconds whose start/duration values are whole multiples of the unit factor is parsed with unit "
+    rule = ("(a) simulation pairs: the same physical scenario (homogeneous machines, compute = whole number of steps) is run with unit 'seconds' "
+            "and with a coarser unit; every task's runtime x factor must equal its runtime in seconds and machines must end the run with the "
+            "scaled speed; (b) a physical configuration in seconds whose start/duration values are whole multiples of the unit factor is parsed with unit "
             "'seconds' and with unit u in {'seconds','minutes','hours', ints}; quick: Hypothesis draws configuration and unit; thorough "
             "additionally enumerates ALL units {'seconds','minutes','hours'} + 1..7200 on two fixed configurations; non-trivial = unit "
             "factor > 1; distinct = distinct (unit, configuration) JSON")
@@ -749,10 +755,79 @@ class C16:
             v['sig'] = v['part']
         return state.split_known(out)
 
+    # ---- simulation part: "task runtimes measured in seconds do not depend on the unit"
+    sim_cases = {'quick': 160, 'thorough': 1600}
+
+    @staticmethod
+    def sim_strategy():
+        def mk(t):
+            sc, u, ks = t
+            sc = json.loads(json.dumps(sc))
+            f, b = sc['machines'][0]['flops'], sc['machines'][0]['bw']
+            sc['machines'] = [{'flops': f, 'bw': b} for _ in sc['machines']]          # homogeneous: runtime independent of placement
+            uf = {'minutes': 60}.get(u, u)
+            i = 0
+            for o in sc['obs']:
+                o['start'] *= uf
+                o['duration'] *= uf
+                for n in o['wf']['nodes']:
+                    n['comp'] = ks[i % len(ks)] * f * uf                               # whole number of steps in either unit
+                    n.pop('task_data', None)
+                    i += 1
+                for e in o['wf']['edges']:
+                    e[2] = 0
+            vols = sum(o['rate'] * o['duration'] for o in sc['obs'])
+            sc['hot'] = {'capacity': int(vols / 0.6) + 2, 'rate': max(o['rate'] for o in sc['obs'])}
+            sc['cold'] = {'capacity': max(o['rate'] * o['duration'] for o in sc['obs']), 'rate': 1}
+            sc['mode'] = 'roomy'
+            sc['delays'] = {}
+            return {'sim': True, 'sc': sc, 'unit': u}
+        base = scenarios(algs=('batch', 'queue'), modes=('roomy',), max_machines=4, max_obs=2, max_nodes=4, max_duration=3,
+                         start_gaps=(0, 1, 2))
+        # small custom factors keep the seconds-unit run short; the unit *spellings* are covered by the parse-level part
+        return st.tuples(base, st.sampled_from([2, 3, 5, 7]), st.lists(st.integers(1, 3), min_size=1, max_size=6)).map(mk)
+
+    def sim_body(self, case, state):
+        from .runner import run_scenario
+        state.evaluations += 1
+        sc, u = case['sc'], case['unit']
+        uf = {'minutes': 60}.get(u, u)
+        a = run_scenario(dict(sc, unit='seconds'))
+        b = run_scenario(dict(sc, unit=u))
+        out = []
+        if a.status != 'completed' or b.status != 'completed':
+            state.aborted += 1
+            return []
+
+        def runtimes(tr):
+            return {w['task'].split('_', 1)[0] + ':' + w['task'].rsplit('_', 1)[1] + (':i' if '_ingest_' in w['task'] else ''):
+                    w['aft'] - w['ast'] for w in tr.works if 'aft' in w}
+        ra, rb = runtimes(a), runtimes(b)
+        for k in ra:
+            if k in rb and abs(rb[k] * uf - ra[k]) > 1e-6:
+                out.append(O.V('C16', 'runtime_depends_on_unit', f"task {k}: {ra[k]} s with unit seconds, {rb[k]} steps x {uf} = {rb[k] * uf} s with unit {u!r}"))
+                break
+        for i, m in enumerate(b.sim.cluster.machines):
+            if m.cpu != sc['machines'][i]['flops'] * uf or m.bandwidth != sc['machines'][i]['bw'] * uf:
+                out.append(O.V('C16', 'speed_after_run', f"unit {u!r}: machine {m.id} ends the run with cpu={m.cpu} bandwidth={m.bandwidth}, expected {sc['machines'][i]['flops'] * uf}/{sc['machines'][i]['bw'] * uf}"))
+                break
+        state.count('sim_pairs')
+        if len(ra) >= 3:
+            state.nontrivial.add(case_hash(case))
+        for v in out:
+            v['sig'] = v['part']
+        return state.split_known(out)
+
     def replay_case(self, case, state):
+        if isinstance(case, dict) and case.get('sim'):
+            return self.sim_body(case, state)
         return self.body(case, state)
 
     def run_shard(self, state, tier, seed, shard, nshards, cases=None):
+        run_given(state, self.sim_strategy(), self.sim_body, max(1, (cases or self.sim_cases[tier]) // nshards),
+                  shard_seed(seed, self.prop, shard, 'sim'))
+        if state.failures:
+            return
         units = st.one_of(st.sampled_from(['seconds', 'minutes', 'hours']), st.integers(1, 7200),
                           st.sampled_from([1, 2, 59, 60, 61, 3599, 3600, 3601]))
         run_given(state, st.tuples(units, c16_vals()).map(list), self.body,
